@@ -16,6 +16,10 @@ pub const ENTRIES: &[&str] = &[
     "sync-init-postIo",
     "fsm-init-preIo",
     "fsm-init-postIo",
+    "sync-create-preIo",
+    "sync-create-postIo",
+    "fsm-create-preIo",
+    "fsm-create-postIo",
     "sync-outboard-preMem",
     "sync-outboard-postMem",
     "sync-outboard-preIo",
@@ -103,6 +107,13 @@ pub fn gen(prop: &str, tier: &str, seed: u64, out: &mut Vec<String>) {
                     let start = r.below(ENTRIES.len() as u64) as usize;
                     for i in 0..n_entries {
                         out.push(format!("ob {b} {bs} {}", ENTRIES[(start + i) % ENTRIES.len()]));
+                    }
+                    // the same through a data reader that returns short reads (sync entry points take any `Read`)
+                    let sync_entries: Vec<&&str> = ENTRIES.iter().filter(|e| e.starts_with("sync-") && **e != "sync-create-preMem" && **e != "sync-create-postMem").collect();
+                    for _ in 0..if t { 4 } else { 2 } {
+                        let e = sync_entries[r.below(sync_entries.len() as u64) as usize];
+                        let m = *r.pick(&[1u64, 7, 63, 64, 1000, 1023, 1024, 1025, 4097]);
+                        out.push(format!("ob {b} {bs} {e}+t{m}"));
                     }
                     out.push(format!("glue {b} {bs}"));
                 }
